@@ -68,7 +68,12 @@ func TestActivity(t *testing.T) {
 		st, _ = n.HeadState()
 		fmt.Println(i, "order", b.Order, "num", b.Zone().NumberArray(), "etxs", len(b.Etxs), "txs", len(b.Zone().Transactions()), "bal0", st.GetBalance(qk[0].Internal()), "bal1", st.GetBalance(qk[1].Internal()), "utxos", len(ScanUTXOs(n.Nodes[Zone].DB)), "cl", len(ScanLockups(n.Nodes[Zone].DB, ZoneLoc)), fp, msg)
 		for _, tx := range b.Zone().Transactions() {
-			fmt.Printf("      tx type %d etxtype %v\n", tx.Type(), func() any { if tx.Type() == types.ExternalTxType { return tx.EtxType() }; return "-" }())
+			fmt.Printf("      tx type %d etxtype %v\n", tx.Type(), func() any {
+				if tx.Type() == types.ExternalTxType {
+					return tx.EtxType()
+				}
+				return "-"
+			}())
 		}
 	}
 }
